@@ -92,7 +92,7 @@ Lemma op_local s l :
   (forall (Ht : tso (cands s c) <> 0 -> observed s c <> None),
      tso (o_cand o) <> 0 -> (match o_observed o with Some b => Some b | None => observed s c end) <> None).
 Proof.
-  destruct l as [c e t|c h b e t|c h b e t]; cbn [run_op lab_cid].
+  destruct l as [c e t|c h b e t|c h b e t|c]; cbn [run_op lab_cid]; [| | |simpl; auto].
   - unfold do_get. destruct e; simpl; [|auto]. destruct (store s) as [r|]; simpl; [|auto].
     destruct (rholder r); simpl; split; intros; congruence.
   - unfold do_create. destruct e, (store s); simpl; auto; split; intros; congruence.
@@ -119,7 +119,8 @@ Proof.
       destruct (o_observed (run_op s l)); [rewrite upd_same|]; exact H2.
     - rewrite upd_other by exact Hne.
       destruct (o_observed (run_op s l)); [rewrite upd_other by exact Hne|]; apply Htso. }
-  destruct l as [c e t|c h b e t|c h b e t].
+  destruct l as [c e t|c h b e t|c h b e t|c];
+    [| | |constructor; try assumption; unfold step; cbn [run_op lab_cid lab_write store log o_store o_applied]; assumption].
   - (* Get: nothing written *)
     constructor; try assumption; unfold step; cbn [run_op lab_cid lab_write store log];
       rewrite ?get_not_applied; try assumption.
@@ -242,7 +243,7 @@ Qed.
 Lemma store_never_deleted l s : store s <> None -> store (step s l) <> None.
 Proof.
   intros H. unfold step; cbn [store].
-  destruct l as [c e t|c h b e t|c h b e t]; cbn [run_op].
+  destruct l as [c e t|c h b e t|c h b e t|c]; cbn [run_op]; [| | |exact H].
   - unfold do_get. destruct e; [|exact H]. destruct (store s) as [r|]; [|exact H]. destruct (rholder r); exact H.
   - unfold do_create. destruct e, (store s); simpl; congruence.
   - unfold do_update. destruct (tso (cands s c) =? 0); [exact H|].
@@ -287,21 +288,22 @@ Qed.
    holds X (no Get/Create of its own since) cannot get an Update applied, as long as nobody
    writes X back *)
 Definition quiet (d : cid) (X : bytes) (l : label) : Prop :=
-  (match l with LUpdate _ _ _ _ _ => True | _ => lab_cid l <> d end) /\ lab_write l <> Some X.
+  (match l with LUpdate _ _ _ _ _ | LInfo _ => True | _ => lab_cid l <> d end) /\ lab_write l <> Some X.
 
 Lemma stale_pres d X s l :
   rec_bytes (store s) <> Some X -> lastVal (cands s d) = X -> quiet d X l ->
   rec_bytes (store (step s l)) <> Some X /\ lastVal (cands (step s l) d) = X.
 Proof.
   intros Hs Hd [Hq Hw]. split.
-  - unfold step; cbn [store]. destruct l as [c e t|c h b e t|c h b e t]; cbn [run_op]; cbn [lab_write] in Hw.
+  - unfold step; cbn [store]. destruct l as [c e t|c h b e t|c h b e t|c]; cbn [run_op]; cbn [lab_write] in Hw; [| | |exact Hs].
     + unfold do_get. destruct e; [|exact Hs]. destruct (store s) as [r|]; [|exact Hs]. destruct (rholder r); exact Hs.
     + unfold do_create. destruct e, (store s); simpl; try exact Hs; simpl in Hs; congruence.
     + unfold do_update. destruct (tso (cands s c) =? 0); [exact Hs|].
       destruct e; simpl; try exact Hs; destruct (cas_holds (store s) (lastVal (cands s c))); simpl; try exact Hs; congruence.
   - unfold step; cbn [cands]. destruct (N.eq_dec d (lab_cid l)) as [E|Hne].
-    + rewrite E, upd_same. destruct l as [c e t|c h b e t|c h b e t]; cbn [lab_cid] in E, Hq; try congruence.
-      cbn [run_op lab_cid]. rewrite update_keeps_lastVal. subst c. exact Hd.
+    + rewrite E, upd_same. destruct l as [c e t|c h b e t|c h b e t|c]; cbn [lab_cid] in E, Hq; try congruence.
+      * cbn [run_op lab_cid]. rewrite update_keeps_lastVal. subst c. exact Hd.
+      * cbn [run_op lab_cid o_cand]. subst c. exact Hd.
     + rewrite upd_other by exact Hne. exact Hd.
 Qed.
 
@@ -352,4 +354,28 @@ Lemma get_refreshes s c t :
 Proof.
   intros r Hr. unfold step; cbn [cands lab_cid run_op]. rewrite upd_same. unfold do_get. rewrite Hr.
   destruct (rholder r); reflexivity.
+Qed.
+
+(* only the candidate's own Get and Create assign lastVal: no other label — in particular no Update
+   and no information lookup (leader.go GetLeaderInfo / GetElectionInfo / Describe), by anybody —
+   changes what a candidate's next Update is conditioned on *)
+Lemma lastVal_only_get_create s l c :
+  lastVal (cands (step s l) c) <> lastVal (cands s c) ->
+  (exists e t, l = LGet c e t) \/ (exists h b e t, l = LCreate c h b e t).
+Proof.
+  intros H. unfold step in H; cbn [cands] in H.
+  destruct (N.eq_dec c (lab_cid l)) as [E|Hne].
+  - rewrite E, upd_same in H. destruct l as [c' e t|c' h b e t|c' h b e t|c']; cbn [lab_cid] in E, H; subst c'.
+    + left. eauto.
+    + right. eauto.
+    + exfalso. apply H. cbn [run_op]. apply update_keeps_lastVal.
+    + exfalso. apply H. reflexivity.
+  - rewrite upd_other in H by exact Hne. congruence.
+Qed.
+
+Lemma info_changes_nothing s c :
+  store (step s (LInfo c)) = store s /\ (forall x, cands (step s (LInfo c)) x = cands s x) /\ log (step s (LInfo c)) = log s.
+Proof.
+  unfold step; cbn [store cands log run_op lab_cid lab_write o_store o_cand o_applied]. repeat split.
+  intros x. unfold upd. destruct (x =? c) eqn:E; [apply N.eqb_eq in E; subst; reflexivity|reflexivity].
 Qed.
